@@ -587,6 +587,37 @@ func runC09(c *h.Ctx) {
 	// one slice), several of them reaching the same final step: what a step
 	// appends must not land in the array that follows
 	{
+		// ... and a unary operator over several items whose continuation evaluates
+		// conditions with several items on either side (the operator's items are
+		// handed on one by one while those conditions use lists of their own)
+		udocs := []string{`{"a":[1,2,3,4]}`, `{"a":[5,-6,7]}`, `{"a":[[1,2],[3]]}`}
+		uptxts := []string{`(-$.a[*]) ? ($arr[*] > @)`, `(-$.a[*]) ? (@ < $sarr[*] || $arr[*] >= @)`, `(+$.a[*]) ? ($arr[0 to 1] != @).abs()`, `(-$.a[*]) ? ($arr[*] > @) ? ($arr[1,0] > @)`,
+			`(-$.a[*]) ? (@ * 1 < $arr[*])`, `(-$.a) ? (exists($arr[*] ? (@ > 0)))`, `(-$.a[*]) ? ($arr[*] > @).type()`, `(-(-$.a[*])) ? ($arr[*] <= @)`}
+		uk := 0
+		for _, d := range udocs {
+			for _, pt := range uptxts {
+				for _, lax := range []bool{true, false} {
+					uk++
+					if !c.Mine(uk) {
+						continue
+					}
+					p, err, pan := h.ParseSafe(map[bool]string{true: "", false: "strict "}[lax] + pt)
+					if err != nil || pan != "" {
+						continue
+					}
+					chain := gen.FromAST(p.AST).Root
+					nsteps := 0
+					for x := chain.Next; x != nil; x = x.Next {
+						nsteps++
+					}
+					for split := 0; split < nsteps; split++ {
+						for _, useNum := range []bool{false, true} {
+							checkSplit(c, &c09Case{lax: lax, chain: chain, split: split, doc: d, useNum: useNum, vars: stdVars1, spare: split%2 == 0})
+						}
+					}
+				}
+			}
+		}
 		docs := []string{`{"rows":[[1,2],[3,4],[5,6]],"all":[0,0,0]}`, `[[1],[2,3],[4,5,6]]`, `{"a":[[{"x":1}],[{"x":2},{"x":3}]],"b":[9,8]}`, `[[[1,2],[3]],[[4],[5,6]]]`, `{"rows":[[],[7],[8,9]]}`}
 		ptxts := []string{`$.rows[*][*]`, `$.rows[0,1,2][*]`, `$.rows[0 to last][*]`, `$.**{1}[*]`, `$.**{1 to 2}[*]`, `$[*][*]`, `$[*][*][*]`, `$.a[*][*].x`, `$.a[*][*]`, `$[0 to last][*]`, `$.rows[*][0 to last]`, `$[*][*] ? (@ > 1)`,
 			`$[*][0 to last]`, `$.rows[*][*].type()`, `$.rows[*] ? (@.size() > 0)[*]`, `$[last,0][*]`, `$.rows[last,0,1][*]`}
